@@ -214,7 +214,8 @@ def playback(ctx: Ctx, h: dict, logdir: str, prop: str) -> dict:
     res = {"reproduced": False, "path": None, "detail": ""}
     with Lane(ctx) as lane:
         cmd = kani_cmd(lane, h, "-Z concrete-playback --concrete-playback=print")
-        rc, out, wall = run_cmd(cmd, ctx.harness_dir, h["timeout"] + 300, h.get("mem_gb", 10))
+        # trace generation for every failed check and every cover costs several times the plain run
+        rc, out, wall = run_cmd(cmd, ctx.harness_dir, 4 * h["timeout"] + 900, h.get("mem_gb", 10))
     with open(os.path.join(logdir, h["name"] + ".playback-gen.log"), "w") as f:
         f.write(out)
     test = extract_playback_test(out)
